@@ -159,10 +159,16 @@ class TimeType:
 
     @_with_other_as_time_type
     def __pow__(self, other: 'TimeType'):
+        if other._value.denominator == 1:
+            # integer exponent: stay exact (mpq ** mpq would fall back to a floating point result)
+            return self._value.__pow__(other._value.numerator)
         return self._value.__pow__(other._value)
 
     @_with_other_as_time_type
     def __rpow__(self, other: 'TimeType'):
+        if self._value.denominator == 1:
+            # integer exponent: stay exact (mpq ** mpq would fall back to a floating point result)
+            return other._value.__pow__(self._value.numerator)
         return self._value.__rpow__(other._value)
 
     def __trunc__(self):
